@@ -6,7 +6,7 @@
    shapes), stix2/utils.py (deduplicate: the key) and stix2/environment.py (the wiring) -- fail closed.
    See Props/C11Src.v for how the obligations break when the text regresses.                             *)
 From Coq Require Import NArith ZArith List Bool Permutation.
-From V Require Import Base.UString Model.Store Model.StoreRun Model.StoreCases Model.StoreCfg Spec.StoreSpec
+From V Require Import Base.UString Model.Store Model.StoreRun Model.StoreCases Model.StoreCfg Spec.StoreSpec Spec.StoreNavSpec
   Proofs.StoreBase Proofs.StoreMem Proofs.StoreFs Proofs.StoreAgree Proofs.StoreComposite Proofs.StoreNav
   Gen.StoreFacts Proofs.StoreSrc.
 Import ListNotations.
@@ -77,7 +77,9 @@ Theorem source_related_is_union_scan : forall (iot : ustring -> option Z) (ms : 
 Proof. exact src_related_federated. Qed.
 Print Assumptions source_related_is_union_scan.
 
-(* the alternatives the translator recognises each violate the property (kernel-evaluated witnesses) *)
+(* alternatives the translator recognises that violate the property (kernel-evaluated witnesses).  Not refuted:
+   `>=` in CompositeDataSource.get (still a newest version; only the copy differs on ties); c_navigation and
+   c_environment are one-constructor types (fixed-text sites: the strength is in the translator). *)
 Theorem alternative_run_always_refuted :
   cget_g cfg_run_always [] [mem_of [v_obj a_id 3 1]; mem_of [v_obj a_id 1 2]; mem_of [v_obj a_id 2 3]] [] a_id = Ok (Some (v_obj a_id 2 3)) /\
   cget [] [mem_of [v_obj a_id 3 1]; mem_of [v_obj a_id 1 2]; mem_of [v_obj a_id 2 3]] [] a_id = Ok (Some (v_obj a_id 3 1)).
@@ -102,3 +104,9 @@ Theorem alternative_dedupe_by_id_refuted :
   call [] [mem_of [v_obj a_id 1 1; v_obj a_id 2 2]] [] a_id = Ok [v_obj a_id 1 1; v_obj a_id 2 2].
 Proof. exact alt_key_id_refuted. Qed.
 Print Assumptions alternative_dedupe_by_id_refuted.
+
+Theorem alternative_cget_lt_le_refuted :
+  cget_g (cfg_cget CmpLt) [] [mem_of [v_obj a_id 2 1]; mem_of [v_obj a_id 1 2]] [] a_id = Ok (Some (v_obj a_id 1 2)) /\
+  cget_g (cfg_cget CmpLe) [] [mem_of [v_obj a_id 1 1]; mem_of [v_obj a_id 2 2]] [] a_id = Ok (Some (v_obj a_id 1 1)).
+Proof. exact alt_cget_lt_refuted. Qed.
+Print Assumptions alternative_cget_lt_le_refuted.
